@@ -1,0 +1,378 @@
+//go:build verif
+
+package base
+
+import (
+	"fmt"
+	"sort"
+	"strings"
+)
+
+// Verification instrumentation (build tag verif): deep snapshot / restore of
+// every package-level table of package base, a structural digest of the
+// configured (builtin) entries of TFrame, and a structural rendering of T.
+//
+// The file name sorts last so that its init() runs after the other init()
+// functions of this package and captures the pristine (pre-config) state.
+
+type VerifSnapshot struct {
+	tFrame           map[FrameKey]*T
+	argumentSnapShot map[FrameKey]T
+	builtinClasses   []string
+	globT            T
+	inheritance      map[ClassNode][]ClassNode
+	genId            genId
+	definedClass     map[DefinedClass]bool
+	sigArticles      []TSignatureArticle
+	sigs             map[string]Sig
+	sigDocs          map[string]string
+	callPoint        map[string][]CallPoint
+	calleePoint      map[string][]CalleePoint
+	comments         []SpecialCodeComment
+}
+
+var VerifPristine *VerifSnapshot
+
+func init() {
+	VerifPristine = VerifTakeSnapshot()
+}
+
+func verifCopyAny(v any, memo map[*T]*T) any {
+	switch x := v.(type) {
+	case *T:
+		return verifCopyPtr(x, memo)
+	default:
+		return v
+	}
+}
+
+func verifCopySlice(ts []T, memo map[*T]*T) []T {
+	if ts == nil {
+		return nil
+	}
+	out := make([]T, len(ts), cap(ts))
+	for i := range ts {
+		out[i] = verifCopyVal(ts[i], memo)
+	}
+	return out
+}
+
+func verifCopyVal(t T, memo map[*T]*T) T {
+	c := t
+	c.val = verifCopyAny(t.val, memo)
+	c.owner = verifCopyAny(t.owner, memo)
+	if t.defineArgs != nil {
+		c.defineArgs = make([]string, len(t.defineArgs), cap(t.defineArgs))
+		copy(c.defineArgs, t.defineArgs)
+	}
+	c.variants = verifCopySlice(t.variants, memo)
+	c.blockParamaters = verifCopySlice(t.blockParamaters, memo)
+	c.Overloads = verifCopySlice(t.Overloads, memo)
+	return c
+}
+
+func verifCopyPtr(t *T, memo map[*T]*T) *T {
+	if t == nil {
+		return nil
+	}
+	if c, ok := memo[t]; ok {
+		return c
+	}
+	c := new(T)
+	memo[t] = c
+	*c = verifCopyVal(*t, memo)
+	return c
+}
+
+func VerifTakeSnapshot() *VerifSnapshot {
+	memo := make(map[*T]*T)
+	s := &VerifSnapshot{}
+
+	s.tFrame = make(map[FrameKey]*T, len(TFrame))
+	for k, v := range TFrame {
+		s.tFrame[k] = verifCopyPtr(v, memo)
+	}
+	s.argumentSnapShot = make(map[FrameKey]T, len(ArgumentSnapShot))
+	for k, v := range ArgumentSnapShot {
+		s.argumentSnapShot[k] = verifCopyVal(v, memo)
+	}
+	s.builtinClasses = append([]string(nil), BuiltinClasses...)
+	s.globT = verifCopyVal(GlobT, memo)
+	s.inheritance = make(map[ClassNode][]ClassNode, len(ClassInheritanceMap))
+	for k, v := range ClassInheritanceMap {
+		s.inheritance[k] = append([]ClassNode(nil), v...)
+	}
+	s.genId = defaultGenId
+	s.definedClass = make(map[DefinedClass]bool, len(DefinedClassTable))
+	for k, v := range DefinedClassTable {
+		s.definedClass[k] = v
+	}
+	s.sigArticles = make([]TSignatureArticle, len(TSignatureArticles))
+	for i, a := range TSignatureArticles {
+		a.MethodT = verifCopyVal(a.MethodT, memo)
+		s.sigArticles[i] = a
+	}
+	s.sigs = make(map[string]Sig, len(TSignatures))
+	for k, v := range TSignatures {
+		s.sigs[k] = v
+	}
+	s.sigDocs = make(map[string]string, len(TSignatureDocument))
+	for k, v := range TSignatureDocument {
+		s.sigDocs[k] = v
+	}
+	s.callPoint = make(map[string][]CallPoint, len(MethodCallPoint))
+	for k, v := range MethodCallPoint {
+		s.callPoint[k] = append([]CallPoint(nil), v...)
+	}
+	s.calleePoint = make(map[string][]CalleePoint, len(MethodCalleePoint))
+	for k, v := range MethodCalleePoint {
+		s.calleePoint[k] = append([]CalleePoint(nil), v...)
+	}
+	s.comments = append([]SpecialCodeComment(nil), SpecialCodeComments...)
+
+	return s
+}
+
+// VerifRestore makes the package tables a fresh deep copy of s.
+func VerifRestore(s *VerifSnapshot) {
+	memo := make(map[*T]*T)
+
+	TFrame = make(map[FrameKey]*T, len(s.tFrame))
+	for k, v := range s.tFrame {
+		TFrame[k] = verifCopyPtr(v, memo)
+	}
+	ArgumentSnapShot = make(map[FrameKey]T, len(s.argumentSnapShot))
+	for k, v := range s.argumentSnapShot {
+		ArgumentSnapShot[k] = verifCopyVal(v, memo)
+	}
+	BuiltinClasses = append([]string(nil), s.builtinClasses...)
+	GlobT = verifCopyVal(s.globT, memo)
+	ClassInheritanceMap = make(map[ClassNode][]ClassNode, len(s.inheritance))
+	for k, v := range s.inheritance {
+		ClassInheritanceMap[k] = append([]ClassNode(nil), v...)
+	}
+	defaultGenId = s.genId
+	DefinedClassTable = make(map[DefinedClass]bool, len(s.definedClass))
+	for k, v := range s.definedClass {
+		DefinedClassTable[k] = v
+	}
+	TSignatureArticles = make([]TSignatureArticle, len(s.sigArticles))
+	for i, a := range s.sigArticles {
+		a.MethodT = verifCopyVal(a.MethodT, memo)
+		TSignatureArticles[i] = a
+	}
+	TSignatures = make(map[string]Sig, len(s.sigs))
+	for k, v := range s.sigs {
+		TSignatures[k] = v
+	}
+	TSignatureDocument = make(map[string]string, len(s.sigDocs))
+	for k, v := range s.sigDocs {
+		TSignatureDocument[k] = v
+	}
+	MethodCallPoint = make(map[string][]CallPoint, len(s.callPoint))
+	for k, v := range s.callPoint {
+		MethodCallPoint[k] = append([]CallPoint(nil), v...)
+	}
+	MethodCalleePoint = make(map[string][]CalleePoint, len(s.calleePoint))
+	for k, v := range s.calleePoint {
+		MethodCalleePoint[k] = append([]CalleePoint(nil), v...)
+	}
+	SpecialCodeComments = append([]SpecialCodeComment(nil), s.comments...)
+}
+
+// VerifCopyT is a full deep copy of one T value (T.DeepCopy omits Overloads,
+// val and owner).
+func VerifCopyT(t T) T { return verifCopyVal(t, make(map[*T]*T)) }
+
+// ---------------------------------------------------------------------------
+// structural rendering
+
+// VerifTypeJSON renders the type structure of t from the value itself
+// (not through TypeToString).
+func VerifTypeJSON(t *T) any {
+	return verifTypeJSON(t, 0)
+}
+
+func verifTypeJSON(t *T, depth int) any {
+	if t == nil {
+		return map[string]any{"k": "nil-pointer"}
+	}
+	if depth > 6 {
+		return map[string]any{"k": "deep"}
+	}
+	switch t.tType {
+	case NIL:
+		return map[string]any{"k": "cls", "n": "NilClass"}
+	case INT:
+		return map[string]any{"k": "cls", "n": "Integer"}
+	case STRING:
+		return map[string]any{"k": "cls", "n": "String"}
+	case BOOL:
+		return map[string]any{"k": "cls", "n": "Bool"}
+	case FLOAT:
+		return map[string]any{"k": "cls", "n": "Float"}
+	case SYMBOL:
+		return map[string]any{"k": "cls", "n": "Symbol"}
+	case RANGE:
+		return map[string]any{"k": "cls", "n": "Range"}
+	case UNTYPED:
+		return map[string]any{"k": "untyped"}
+	case UNKNOWN:
+		return map[string]any{"k": "unknown", "id": t.ToString()}
+	case OBJECT:
+		n := t.objectClass
+		if t.frame != "" && t.frame != "Builtin" {
+			n = t.frame + "::" + n
+		}
+		return map[string]any{"k": "cls", "n": n}
+	case CLASS:
+		return map[string]any{"k": "class", "n": t.ToString()}
+	case HASH:
+		var vs []any
+		for i := range t.variants {
+			v := &t.variants[i]
+			var vt any
+			if kv, ok := v.val.(*T); ok {
+				vt = verifTypeJSON(kv, depth+1)
+			} else {
+				vt = verifTypeJSON(v, depth+1)
+			}
+			vs = append(vs, map[string]any{"key": v.key, "t": vt})
+		}
+		return map[string]any{"k": "hash", "e": vs}
+	case ARRAY:
+		var vs []any
+		for i := range t.variants {
+			vs = append(vs, verifTypeJSON(&t.variants[i], depth+1))
+		}
+		return map[string]any{"k": "arr", "e": vs}
+	case UNION:
+		var vs []any
+		for i := range t.variants {
+			vs = append(vs, verifTypeJSON(&t.variants[i], depth+1))
+		}
+		return map[string]any{"k": "union", "v": vs}
+	case KEYVALUE:
+		var vt any
+		if kv, ok := t.val.(*T); ok {
+			vt = verifTypeJSON(kv, depth+1)
+		}
+		return map[string]any{"k": "kv", "key": t.key, "t": vt}
+	case BLOCK:
+		return map[string]any{"k": "block"}
+	default:
+		return map[string]any{"k": "special", "n": TypeToStringSafe(t)}
+	}
+}
+
+func TypeToStringSafe(t *T) (s string) {
+	defer func() {
+		if r := recover(); r != nil {
+			s = fmt.Sprintf("type#%d", t.tType)
+		}
+	}()
+	return TypeToString(t)
+}
+
+// ---------------------------------------------------------------------------
+// digest of configured entries
+
+func verifDigestT(sb *strings.Builder, t *T, depth int, full bool) {
+	if t == nil {
+		sb.WriteString("nil")
+		return
+	}
+	if depth > 8 {
+		sb.WriteString("deep")
+		return
+	}
+	fmt.Fprintf(sb, "{ty=%d oc=%s key=%s fr=%s m=%s", t.tType, t.objectClass, t.key, t.frame, t.method)
+	switch v := t.val.(type) {
+	case *T:
+		sb.WriteString(" val=")
+		verifDigestT(sb, v, depth+1, full)
+	case string:
+		if t.tType != STRING {
+			fmt.Fprintf(sb, " val=%q", v)
+		}
+	}
+	fmt.Fprintf(sb, " args=%v def=%v bi=%v ast=%v cond=%v destr=%v ro=%v blk=%v st=%v cap=%v",
+		t.defineArgs, t.hasDefault, t.isBuiltin, t.IsBuiltinAsterisk, t.IsConditionalReturn,
+		t.IsDestructive, t.isReadOnly, t.IsBlockGiven, t.IsStatic, t.IsCaptureOwner)
+	if full {
+		fmt.Fprintf(sb, " inf=%v round=%s prot=%v", t.isInfferedFromCall, t.Round, t.IsProtected)
+	}
+	sb.WriteString(" var=[")
+	for i := range t.variants {
+		verifDigestT(sb, &t.variants[i], depth+1, full)
+	}
+	sb.WriteString("] bp=[")
+	for i := range t.blockParamaters {
+		verifDigestT(sb, &t.blockParamaters[i], depth+1, full)
+	}
+	sb.WriteString("] ov=[")
+	for i := range t.Overloads {
+		verifDigestT(sb, &t.Overloads[i], depth+1, full)
+	}
+	sb.WriteString("]}")
+}
+
+func verifKeyString(k FrameKey) string {
+	return fmt.Sprintf("%s|%s|%s|%s|p=%v|s=%v", k.frame, k.targetClass, k.targetMethod, k.targetVariable, k.isPrivate, k.isStatic)
+}
+
+// VerifConfigured is the set of TFrame keys present right after the
+// configuration was loaded (set by VerifMarkConfigured).
+var VerifConfigured map[FrameKey]bool
+
+func VerifMarkConfigured() {
+	VerifConfigured = make(map[FrameKey]bool, len(TFrame))
+	for k := range TFrame {
+		VerifConfigured[k] = true
+	}
+}
+
+// VerifBuiltinDigest returns key -> structural digest for every configured
+// TFrame entry ("<missing>" when the entry disappeared).
+func VerifBuiltinDigest(full bool) map[string]string {
+	out := make(map[string]string, len(VerifConfigured))
+	for k := range VerifConfigured {
+		t, ok := TFrame[k]
+		if !ok {
+			out[verifKeyString(k)] = "<missing>"
+			continue
+		}
+		var sb strings.Builder
+		verifDigestT(&sb, t, 0, full)
+		out[verifKeyString(k)] = sb.String()
+	}
+	return out
+}
+
+// VerifDigestValue digests a single T value (for builtin type templates).
+func VerifDigestValue(t *T) string {
+	var sb strings.Builder
+	verifDigestT(&sb, t, 0, true)
+	return sb.String()
+}
+
+// VerifClassGraph renders the inheritance map deterministically.
+func VerifClassGraph() []string {
+	var out []string
+	for k, vs := range ClassInheritanceMap {
+		for i, v := range vs {
+			out = append(out, fmt.Sprintf("%s/%s -> #%d %s/%s inc=%v ext=%v", k.Frame, k.Class, i, v.Frame, v.Class, v.IsInclude, v.IsExtend))
+		}
+	}
+	sort.Strings(out)
+	return out
+}
+
+func VerifDefinedClasses() []string {
+	var out []string
+	for k := range DefinedClassTable {
+		out = append(out, k.frame+"/"+k.class)
+	}
+	sort.Strings(out)
+	return out
+}
